@@ -26,6 +26,12 @@ CHECKS = {
         note="Work is proxied by tokenizer-level counters. The pattern language and thresholds are mine (pinned tree needs 100-600 operations per token).",
         ref="DESIGN.md §4 C18",
     ),
+    "C03": dict(
+        technique="fuzzing and property-based testing for totality: Hypothesis character soup with dictionary fragments, token/line mutations and all token-aligned prefixes of Python and xonsh seeds, and coverage-guided atheris/libFuzzer campaigns (empty and seeded corpora) whose target runs the same oracle; failures bucketed by (exception type, innermost peg_parser frame), hangs confirmed in a fresh interpreter",
+        text="Exploration: every generated input is pushed through generate_tokens, parse_string (exec and eval) and, for a fraction, parse_file, under a watchdog; the only allowed outcomes are a Module/Expression, SyntaxError or TokenError. Held on everything generated under the harness recursion limit; the default-limit behaviour is listed finding D22.",
+        note="Soft 10 s watchdog, hang only if a fresh interpreter also exceeds 50 s. RecursionError counts only below 300 tokens under the raised limit. libFuzzer campaigns are only approximately reproducible; the saved input is the reproducible unit.",
+        ref="DESIGN.md §4 C03",
+    ),
     "C08": dict(
         technique="property-based testing: generated and mutated texts (Hypothesis-driven grammar, corpus, mutation, soup) against a pure tiling oracle over (text, token list)",
         text="Exploration: every generated text the tokenizer finishes on is checked against an oracle that needs nothing but the text and the token list (slice equality, order, gap shape, NEWLINE/INDENT/DEDENT/ENDMARKER structure). Held on everything generated; no proof.",
